@@ -62,11 +62,13 @@ def kindErr : Kind → SErr
   | .conn q => .conn q
   | .term c => .terminated c
   | .unknown => .unknown 0
+  | .pend => .unknown 0
 
 def Net.markTx (n : Net) (sid : Nat) : Kind → Net
   | .term c => if (n.txStopped.lookup sid).isSome then n else { n with txStopped := n.txStopped ++ [(sid, c)] }
   | .unknown => { n with txBroken := n.txBroken ++ [sid] }
   | .conn _ => n
+  | .pend => n
 
 def localBase (server : Bool) : Nat := if server then 3 else 2
 
